@@ -243,10 +243,15 @@ class TcpConnection():
                 self.sock.send(b"")
                 return True
 
+            except BlockingIOError:
+                #: The connection is still in progress.
+                continue
+
             except OSError as e:
-                if e.args[0] == 10057:
-                    self.connection_attempts -= self.connection_attempts
-                    return False
+                #: The connection has been refused or reset (WSAENOTCONN on
+                #: Windows; ECONNREFUSED, EPIPE or ENOTCONN elsewhere).
+                self.connection_attempts -= self.connection_attempts
+                return False
 
 
 
